@@ -44,7 +44,7 @@ import wire
 from oracles import fail, res, roles, KIND_OF_EVENT, _ill_typed_headers, _settings_frames
 
 HEADER_RULE_MARKS = ('header', 'Header', 'pseudo', 'Pseudo', 'whitespace', 'uppercase', 'Connection-specific', 'TE ', 'te ',
-                     ':authority', ':path', ':method', ':scheme', ':status', 'field')
+                     ':authority', ':path', ':method', ':scheme', ':status', 'field', 'informational')
 
 
 def _complete_frames(buf):
